@@ -141,11 +141,6 @@ theorem C06_frame_stable (a b : Bytes) (h : UInt8) (body rest : Bytes)
 example : splitFrame [0x40, 0x02, 0x00, 0x01] = .complete 0x40 [0x00, 0x01] [] ∧
     splitFrame ([0x40, 0x02, 0x00, 0x01] ++ [0xd0, 0x00]) = .complete 0x40 [0x00, 0x01] [0xd0, 0x00] := by decide
 
-/-- four continuation bytes in front: the reference decoder refuses, whatever follows -/
-theorem dva4_none (b0 b1 b2 b3 : UInt8) (r : Bytes) (h0 : ¬ b0 < 128) (h1 : ¬ b1 < 128) (h2 : ¬ b2 < 128) (h3 : ¬ b3 < 128) :
-    decodeVarint (b0 :: b1 :: b2 :: b3 :: r) = none := by
-  simp [decodeVarint, decodeVarintAux, h0, h1, h2, h3]
-
 /-- A stream found malformed stays malformed whatever arrives later: the verdict "protocol violation" on the bytes so far is final. -/
 theorem C06_malformed_stable (a b : Bytes) (hm : splitFrame a = .malformed) : splitFrame (a ++ b) = .malformed := by
   cases a with
